@@ -78,22 +78,24 @@ AddLaw ==
   /\ \A i \in 1..N : Calls[i].op.k = "asg" /\ Calls[i].op.c = "c" /\ Calls[i].op.op \in {"+", "-"}
   /\ Rec[h].final["c"] = I(init["c"].v + SumCalls(N))
 
+LawOfKind == CASE Rec[h].kind = "inc" -> IncLaw
+               [] Rec[h].kind = "additive" -> AddLaw
+               [] OTHER -> TRUE
+
 \* small histories are searched AND must satisfy the aggregate law of their kind
 LinFinish ==
   /\ h > 0 /\ Rec[h].search
   /\ done = 1..N
   /\ \A c \in Cells : val[c] = Rec[h].final[c]
-  /\ CASE Rec[h].kind = "inc" -> IncLaw
-       [] Rec[h].kind = "additive" -> AddLaw
-       [] OTHER -> TRUE
+  /\ LawOfKind = TRUE     \* (compared with TRUE so that TLC evaluates the law as an expression:
+                         \*  as part of the action its quantifiers would be unfolded recursively)
   /\ PrintT(<<"LIN_OK", h>>)
   /\ h' = 0 /\ UNCHANGED <<done, val>>
 
 Aggregate ==
   /\ h > 0 /\ ~Rec[h].search
-  /\ CASE Rec[h].kind = "inc" -> IncLaw
-       [] Rec[h].kind = "additive" -> AddLaw
-       [] OTHER -> TRUE
+  /\ LawOfKind = TRUE     \* (compared with TRUE so that TLC evaluates the law as an expression:
+                         \*  as part of the action its quantifiers would be unfolded recursively)
   /\ PrintT(<<"LIN_OK", h>>)
   /\ h' = 0 /\ UNCHANGED <<done, val>>
 
